@@ -218,7 +218,9 @@ class Verdict:
         """what_sig: dict describing the failure (keys compared with the known-finding signatures).
         A failure matching a listed finding is a KNOWN-FINDING, anything else a VIOLATION."""
         for k in known_for(self.pid):
-            sig = k.get('signature', {})
+            sig = k.get('signature')
+            if not sig or not isinstance(sig, dict):
+                continue          # findings recognised by a TLA+ predicate are reported by the monitors (KNOWN.<id>)
             if all(what_sig.get(a) == b or (isinstance(b, list) and what_sig.get(a) in b) for a, b in sig.items()):
                 self.known(k['id'], k['what'])
                 return 'known'
